@@ -313,6 +313,28 @@ def probe_frames():
     return out
 
 
+def probe_collectors():
+    """wave 9, object identity (no simulation, no threads): the data collectors of the scenarios of ONE manager registered with a live model,
+    and the registered model's own collector, renumbered by identity. Returns per registration kind (cids, model cid or None)."""
+    out = []
+    with Bptk() as bp:
+        for with_collector in (True, False):
+            case = {"stop": 1, "pop": [(0, [("x", 1.0)])], "script": {}, "tprops": {"0": ["x"], "1": ["x"]}}
+            m = None
+            nm = bp.register(case, dict(case, pop=[(0, [("x", 2.0)]), (0, [("x", 3.0)])]), with_collector=with_collector)
+            with contextlib.redirect_stdout(bp.buf):
+                mgr = bp.b.scenario_manager_factory.scenario_managers[nm]
+                scs = [bp.b.get_scenario(nm, "sc"), bp.b.get_scenario(nm, "sc2")]
+            objs = [sc_.data_collector for sc_ in scs]
+            reg = getattr(getattr(mgr, "model", None), "data_collector", None)
+            ids = {}
+            num = lambda o: ids.setdefault(id(o), len(ids))
+            mc = num(reg) if reg is not None else None
+            out.append({"registered_model_has_collector": with_collector, "model_cid": mc,
+                        "cids": [num(o) if o is not None else -1 for o in objs]})
+    return out
+
+
 def key_collision_evidence():
     """names for which two different (state, property, aggregate) have the same key text: what the real get_df_for_agent returns"""
     from BPTK_Py import Model, Agent, DataCollector, SimultaneousScheduler
@@ -362,7 +384,7 @@ def gen_lean_frames(frames):
     return out
 
 
-def gen_lean(rows, frames=()):
+def gen_lean(rows, frames=(), collectors=()):
     def opt(x, f):
         return "none" if x is None else f"some {f(x)}"
     def i(v):
@@ -387,6 +409,14 @@ def gen_lean(rows, frames=()):
         out.append(f"theorem probe_ok{n} : observed{n}.all (fun x => row (collect intOps probePop{n}) x.1 == x.2) = true := by decide")
         out.append(f"#print axioms probe_ok{n}")
     out += gen_lean_frames(frames)
+    for n, pc in enumerate(collectors or ()):
+        cids = "[" + ", ".join(str(c) for c in pc["cids"]) + "]"
+        mc = "none" if pc["model_cid"] is None else f"(some {pc['model_cid']})"
+        good = len(set(pc["cids"])) == len(pc["cids"]) and pc["model_cid"] not in pc["cids"] and -1 not in pc["cids"]
+        out.append(f"/-- identities of the data collectors of the two scenarios of one live-model manager (registered model "
+                   f"{'with' if pc['registered_model_has_collector'] else 'without'} a collector), as probed -/")
+        out.append(f"theorem collectors_{'distinct' if good else 'shared'}{n} : collectorsDistinct {cids} {mc} = {'true' if good else 'false'} := by decide")
+        out.append(f"#print axioms collectors_{'distinct' if good else 'shared'}{n}")
     out += ["theorem holds : C13_full := C13_full_proved", "#print axioms holds", "end Bptk.C13.Gen", ""]
     return "\n".join(out)
 
@@ -596,11 +626,17 @@ class Bptk:
             self.b.destroy()
         threading.excepthook = self.hook
 
-    def register(self, case, second=None):
-        """one manager with scenario `sc` (and `sc2` when a second case is given: same model class and script, own population / stop time)"""
+    def register(self, case, second=None, with_collector=None):
+        """one manager with scenario `sc` (and `sc2` when a second case is given: same model class and script, own population / stop time).
+        wave 9: the registered live model carries a DataCollector of its own on every second registration (parameter kind)"""
         self.n += 1
         nm = f"smC13x{self.n}"
-        m = model_class()(name="c13")
+        from BPTK_Py import DataCollector
+        if with_collector is None:
+            with_collector = self.n % 2 == 0
+        self.reg_kinds = getattr(self, "reg_kinds", {"model_with_collector": 0, "model_without_collector": 0})
+        self.reg_kinds["model_with_collector" if with_collector else "model_without_collector"] += 1
+        m = model_class()(name="c13", data_collector=DataCollector() if with_collector else None)
         m._script = {int(k): v for k, v in case["script"].items()}
         m._mid = {int(k): v for k, v in case.get("mid", {}).items()}
         m._snaps = {}
@@ -887,6 +923,68 @@ def two_manager_check(bp, case, second, sel, req, real_lines):
     return first
 
 
+def isolation_cases(rng):
+    """wave 9: two scenarios of one live-model manager whose populations differ at EVERY time in the selected cells (sc2 = sc plus three
+    more agents of type a and two of type b, never touched by the script): if the scenarios shared anything (one data collector), at most
+    one of them could be right at any time — so the outcome does not depend on thread timing."""
+    mk = lambda ty: (ty, [("x", gen_value(rng, "x")), ("k", gen_value(rng, "k"))])
+    na, nb = rng.range(1, 2), rng.range(1, 2)
+    pop = [mk(0) for _ in range(na)] + [mk(1) for _ in range(nb)]
+    stop = rng.range(2, 4)
+    script = {str(t): [["state", rng.below(len(pop)), rng.below(3)]] for t in range(1, stop + 1)}
+    tp = {"0": ["x", "k"], "1": ["x", "k"]}
+    a = {"stop": stop, "pop": pop, "script": script, "tprops": tp, "homogeneous": True}
+    b = {"stop": stop + rng.range(-1, 1), "pop": pop + [mk(0), mk(0), mk(0), mk(1), mk(1)], "script": {}, "tprops": tp, "homogeneous": True}
+    sels = [{"agents": list(TYPES), "states": list(STATES), "props": [], "aggs": []},
+            {"agents": rng.shuffle(list(TYPES)), "states": rng.shuffle(list(STATES)), "props": ["x"], "aggs": ["total", "max"]}]
+    return a, b, sels
+
+
+def isolation_check(bp, a, b, sel, mode, with_collector, req, real_lines):
+    """mode "together": both scenarios in one run_scenarios call (the runner simulates them in threads); mode "sequential": scenario sc in
+    all formats first, then sc2 — each must have been simulated over its own run specs and report its own population.
+    Returns None or (key, text, replay)."""
+    nm = bp.register(a, b, with_collector=with_collector)
+    rp = {"case": a, "isolation_second": b, "selection": sel, "format": mode, "registered_model_has_collector": with_collector}
+    results = {}
+    order = [("sc", "sc2")] if mode == "together" else [("sc",), ("sc2",)]
+    raised = None
+    for scs in order:
+        for fmt in ("df", "dict", "json"):
+            try:
+                results[(scs, fmt)] = bp.query(nm, sel, fmt, scenarios=scs)
+            except Exception as e:
+                raised = raised or f"run_scenarios(scenarios={list(scs)}, return_format={fmt!r}) raises {type(e).__name__}: {e}"
+                results[(scs, fmt)] = None
+    first = None
+    for sc, c in (("sc", a), ("sc2", b)):
+        with contextlib.redirect_stdout(bp.buf):
+            snaps = bp.b.get_scenario(nm, sc)._snaps
+        want_times = [float(t) for t in range(1, c["stop"] + 1)]
+        if sorted(float(t) for t in snaps) != want_times:
+            return ("scenario-not-simulated", f"two scenarios of one manager queried {mode}: scenario {sc} was simulated at the times {sorted(snaps)}, "
+                    f"its run specs give {want_times}" + (f"; {raised}" if raised else ""), rp)
+    if raised:
+        return ("run_scenarios-raises", f"two scenarios of one manager queried {mode}: {raised}", rp)
+    for sc, c in (("sc", a), ("sc2", b)):
+        with contextlib.redirect_stdout(bp.buf):
+            snaps = bp.b.get_scenario(nm, sc)._snaps
+        scs = ("sc", "sc2") if mode == "together" else (sc,)
+        req.append("hclear"); real_lines.append("ok")
+        for t in sorted(snaps):
+            req.append(f"hadd {int(t)} {enc_pop(snaps[t])}"); real_lines.append("ok")
+        for fmt in ("df", "dict", "json"):
+            cells = cells_of(results[(scs, fmt)], fmt, nm, sel, sorted(snaps), sc=sc)
+            for (ag, st, p, agg, t), v in cells.items():
+                want = ref_cell(snaps[t], TYPES.index(ag), STATES.index(st), p, agg)
+                if want is not None and v != float(want) and first is None:
+                    what = f"{agg} of {p}" if p else "count"
+                    first = ("scenario-statistics-not-its-own", f"two scenarios of one manager queried {mode} (return_format={fmt!r}): scenario {sc} reports "
+                             f"{what} = {v!r} for {ag}/{st} at t={t}, its population gives {want!r}", rp)
+            emit_run_reads(req, real_lines, fmt, sel, cells)
+    return first
+
+
 def gen_flux_case(rng):
     """wave 6: agent types appear and disappear during the run: at some recorded times a type has no agent at all (no row for it), the
     first listed type is absent while a later listed one is present, and vice versa."""
@@ -1017,7 +1115,14 @@ def run(chk):
         chk.notes["column_key_collision"] = key_collision_evidence()
     except Exception as e:
         chk.notes["column_key_collision"] = f"probe raised {type(e).__name__}: {e}"
-    ok, why = chk.prove(gen_lean(rows, frames))
+    try:
+        collectors = probe_collectors()
+    except Exception as e:
+        collectors = []
+        chk.notes["collector_probe_error"] = f"{type(e).__name__}: {e}"
+    chk.notes["collector_identities"] = collectors
+    shared = [pc for pc in collectors if len(set(pc["cids"])) != len(pc["cids"]) or pc["model_cid"] in pc["cids"] or -1 in pc["cids"]]
+    ok, why = chk.prove(gen_lean(rows, frames, collectors))
     chk.cov["trusted_base"] = [
         "Lean 4.33 kernel; axioms propext, Classical.choice, Quot.sound (audited per run via #print axioms)",
         "hand-written model lean/Bptk/Core/C13.lean of DataCollector.collect_agent_statistics (left fold, carrier-generic) and of the zero-filled "
@@ -1167,6 +1272,22 @@ def run(chk):
             chk.case(("bptk", json.dumps(case, sort_keys=True), json.dumps(sels)), nontrivial=True)
             if (v or v2) and first is None:
                 first = v or v2
+    # ---- wave 9: isolation of the scenarios of one manager, deterministic (together and one after the other, both registration kinds)
+    bdist["isolation_checks"] = 0
+    with Bptk() as bp2:
+        for rep in range(2 if chk.quick else 10):
+            a_, b_, isels = isolation_cases(rng)
+            for mode in ("sequential", "together"):
+                for wc in (True, False):
+                    n0 = len(req)
+                    v = isolation_check(bp2, a_, b_, isels[(rep + wc) % 2], mode, wc, req, real_lines)
+                    owner += [("isolation", a_, b_, mode, wc)] * (len(req) - n0)
+                    bdist["isolation_checks"] += 1
+                    chk.case(("isolation", json.dumps(a_, sort_keys=True), mode, wc, rep), nontrivial=True)
+                    if v and (first is None or shared):
+                        if first is None or first[0] not in ("scenario-not-simulated", "scenario-statistics-not-its-own"):
+                            first = v
+    bdist["registration_kinds"] = getattr(bp, "reg_kinds", {})
     bdist["parameter_kinds"] = getattr(bp, "kinds", {})
     dist.update(bdist)
     chk.cov["input_distribution"] = dist
@@ -1203,7 +1324,7 @@ def run(chk):
             small = shrink_stat_case(rp["case"])
             m = new_model(small); m.run()
             text, rp = check_statistics(m) or text, {"case": small}
-        elif "selection" in rp and rp.get("second") is None and rp.get("second_manager") is None:
+        elif "selection" in rp and rp.get("second") is None and rp.get("second_manager") is None and rp.get("isolation_second") is None:
             try:
                 sm = shrink_bptk(key, rp)
             except Exception:
@@ -1212,7 +1333,12 @@ def run(chk):
                 text, rp = sm
         if not ok:      # the broken obligation's failing-input search succeeded: one finding, with the concrete input
             rp = dict(rp, broken_obligation=why)
+        if shared:
+            rp = dict(rp, collector_identities=collectors)
         chk.add_finding(key, text, rp)
+    if shared and first is None:
+        chk.add_finding("shared-data-collector", f"scenarios of one manager share a DataCollector object (identities {collectors}); Gen proves collectors_shared*",
+                        {"theorem": "Bptk.C13.Gen.collectors_shared*", "collector_identities": collectors}, found_input=False)
     if not ok and first is None:
         chk.add_finding("obligation", f"proof obligations of C13 no longer check: {why}",
                         {"theorem": "Bptk.C13.Gen.probe_ok* / holds", "detail": why, "probe": [s for s, _ in rows]}, found_input=False)
@@ -1235,7 +1361,9 @@ def replay(path):
         return 1
     if "selection" in r:
         with Bptk() as bp:
-            if r.get("second_manager") is not None:
+            if r.get("isolation_second") is not None:
+                v = isolation_check(bp, case, r["isolation_second"], r["selection"], r["format"], r.get("registered_model_has_collector", True), [], [])
+            elif r.get("second_manager") is not None:
                 v = two_manager_check(bp, case, r["second_manager"], r["selection"], [], [])
             elif r.get("second") is not None:
                 v = two_scenario_check(bp, case, r["second"], r["selection"], [], [])
